@@ -50,7 +50,7 @@ type identity struct {
 	chainOK    bool // leaf type, trusted chain, valid at handshake time (name judged separately)
 	nameOK     bool // leaf carries the expected name
 	leafType   bool
-	waitBefore time.Duration // simulated time to let pass before the handshake (expiry)
+	waitBefore time.Duration           // simulated time to let pass before the handshake (expiry)
 	prep       [][2]*certs.Certificate // (leaf, intermediate slot) of earlier attempts by the same impostor
 }
 
